@@ -23,13 +23,13 @@ RULE = ("grids of 1-12 combinations, repetitions 1-6 (>=2 for variance modes), a
         "seeded durations / ties / stalled workers); non-trivial = >=3 combinations with the optimum not at an end, or "
         "a tie for best, or |score| > sys.maxsize; distinct = (mode, combinations, repetitions, processes, best index, "
         "tie?, magnitude class, completion permutation)"
-        "; also: numpy integer scores, sibling ParameterList edited before the search, duplicate combinations handled in the oracle; real-pool arm changes program state between two parallel searches; rare switch for known finding F9, parameters named like the search code's own arguments (max_timesteps, model_cls, mode, ...), models with their own `timestep` attribute, models that run a batch of their own while being built, the model's running state as the score function sees it, every model stepped through exactly the timesteps up to its completion / the limit")
+        "; also: numpy integer scores, sibling ParameterList edited before the search, duplicate combinations handled in the oracle; real-pool arm changes program state between two parallel searches; rare switch for known finding F9, parameters named like the search code's own arguments (max_timesteps, model_cls, mode, ...), one-shot iterables (iterator / generator) as values of a later parameter, models with their own `timestep` attribute, models that run a batch of their own while being built, the model's running state as the score function sees it, every model stepped through exactly the timesteps up to its completion / the limit")
 COMPONENTS = {"real": ["ECAgent.Batching.grid_search", "_run_model_for_search", "_score_model_for_search", "ParameterList",
                        "statistics.mean/variance as called by the package", "ECAgent.Core.Model / SystemManager"],
               "stub": ["multiprocessing.Pool -> simkit.simpool.SimPool", "models and score function are harness workloads"]}
 PROBES = ["mode_0", "mode_1", "mode_2", "mode_3", "mode_4", "mode_5", "mode_6", "mode_7", "tie_for_best",
           "negative_only", "single_combination", "beyond_maxsize", "optimum_first", "optimum_middle", "optimum_last",
-          "parallel_reordered", "float_scores", "numpy_integer_scores", "parameter_named_like_a_batching_argument", "model_with_own_timestep_attribute"]
+          "parallel_reordered", "float_scores", "numpy_integer_scores", "parameter_named_like_a_batching_argument", "model_with_own_timestep_attribute", "one_shot_iterable_as_a_later_parameter"]
 TECHNIQUE = "deterministic simulation: serial vs simulated-parallel schedules of the same search, exact Fraction recomputation of every aggregate and of the best"
 LEVEL_TEXT = ("Seeded search over grids, modes, score tables and simulated pool schedules; every aggregate and the returned best "
               "are compared with an exact rational recomputation and the serial and simulated-parallel outcomes must be "
@@ -63,7 +63,9 @@ def generate(rng, tier):
         grid = []
         for i in range(rng.randint(1, 3)):
             n = rng.randint(1, 4)
-            kind = rng.choice(["list", "list", "tuple", "range", "scalar"])
+            kind = rng.choice(["list", "list", "tuple", "range", "scalar", "oneshot"])
+            if kind == "oneshot":
+                kind = rng.choice(["iter", "gen"]) if i > 0 else "list"
             if kind == "scalar":
                 grid.append([f"p{i}", {"kind": "scalar", "v": rng.randint(0, 9)}])
             elif kind == "range":
@@ -160,6 +162,8 @@ def run_search(ctx, sc, processes, label):
         ctx.probe("model_with_own_timestep_attribute")
     if any(n_ in W.SPECIAL_NAMES for n_ in names):
         ctx.probe("parameter_named_like_a_batching_argument")
+    if any(s_["kind"] in ("iter", "gen") for _, s_ in sc["grid"]):
+        ctx.probe("one_shot_iterable_as_a_later_parameter")
     stats = {}
     kwargs = {"processes": processes, "repetitions": int(sc["reps"]), "mode": B.ScoreMode(int(sc["mode"]) % 8)}
     if sc["max_ts"] is not None:
@@ -285,7 +289,7 @@ def _real_one(sc):
     from simkit.core import Ctx, Violation
     ctx = Ctx(keep_trace=False)
     names = [g[0] for g in sc["grid"]]
-    raw = {n: decode_values(s) for n, s in sc["grid"]}
+    raw = {n: decode_values(s, oneshot=False) for n, s in sc["grid"]}       # (this arm uses one grid for four searches)
     combos = [dict(zip(names, vals)) for vals in itertools.product(*[as_list(s) for _, s in sc["grid"]])]
     sigs = [W.sig_of(c) for c in combos]
     table = {}
